@@ -83,7 +83,7 @@ THEOREMS = {
         # the expiry clause at full strength (instants) is FALSE for the code as it is: proved negation with a witness that qh dst replays (known finding)
         "C14_expiry_full_fails"]] +
            [("QuartzModel.Proofs.ZoneLemmas", "Cron.zoneLoop_spec"), ("QuartzModel.Proofs.ZoneLemmas", "Cron.zoneLoop_fuel")] + FACTS[:2],
-    "C03": TIMERFACTS + COMPOSE[:3] + COMPOSE[8:] + SCHEDFACTS + [("QuartzModel.Theorems.C03", "Sched." + t) for t in ['C03_dispatch_has_entry', 'C03_never_early', 'C03_dispatch_is_popped_min', 'C03_own_trigger_once', 'C03_dispatch_answers_own_trigger', 'C03_at_most_once']], "C04": COMPOSE[3:8] + SCHEDFACTS + [("QuartzModel.Theorems.C04", "Sched." + t) for t in ['C04_accounted', 'C04_suspended_untouched', 'C04_misfire_iff_late', 'C04_misfire_only_if_late', 'C04_leaves_registry', 'C04_no_drift', 'C04_no_drift_start', 'C04_run_once', 'C04_hyps_reachable',
+    "C03": TIMERFACTS + COMPOSE[:3] + COMPOSE[8:] + SCHEDFACTS + [("QuartzModel.Theorems.C03", "Sched." + t) for t in ['C03_dispatch_has_entry', 'C03_never_early', 'C03_dispatch_is_popped_min', 'C03_own_trigger_once', 'C03_dispatch_answers_own_trigger', 'C03_at_most_once']], "C04": COMPOSE[3:8] + SCHEDFACTS + [("QuartzModel.Theorems.C12", "Pool.C12_facts")] + [("QuartzModel.Theorems.C04", "Sched." + t) for t in ['C04_accounted', 'C04_suspended_untouched', 'C04_misfire_iff_late', 'C04_misfire_only_if_late', 'C04_leaves_registry', 'C04_no_drift', 'C04_no_drift_start', 'C04_run_once', 'C04_hyps_reachable',
         'C04_saturates', 'C04_interval_answer', 'C04_saturated_registered', 'C04_saturated_not_due', 'C04_saturated_never_spins',
         'wrapAdd_neg', 'C04_addNanos_is_satAdd', 'C04_overflow_spins_unrepaired']] +
            [("QuartzModel.Proofs.SchedLemmas", "Sched." + t) for t in ['satAdd_eq', 'satAdd_sat', 'satAdd_le', 'satAdd_ge', 'no_drift_aux', 'parked_aux']] +
